@@ -221,13 +221,13 @@ package gomatrixserverlib
 //@ func GetRoomVersion
 //@   trusted
 //@   ensures known: (err == nil) <==> verKnown(verStr)
-//@   ensures impl: err == nil ==> (impl != nil && ref(impl) == verImplRef(verStr))
+//@   ensures impl: err == nil ==> (impl != nil && ref(impl) == verImplRef(verStr) && impl.Version() == verStr && impl.PrivilegedCreators() == verPrivileged(verStr))
 //@   assigns nothing
 
 //@ func MustGetRoomVersion
 //@   trusted
 //@   requires verKnown(verStr)
-//@   ensures impl: result != nil && ref(result) == verImplRef(verStr)
+//@   ensures impl: result != nil && ref(result) == verImplRef(verStr) && result.Version() == verStr && result.PrivilegedCreators() == verPrivileged(verStr)
 //@   assigns nothing
 
 //@ func spec.NewUserID
@@ -271,3 +271,60 @@ package gomatrixserverlib
 //@   requires a != nil && a.provider != nil && event != nil && a.userIDQuerier != nil && (a.powerLevelsEvent == nil ==> a.createEvent != nil)
 //@   ensures iff: (err == nil) <==> (!stMemberErr(a.provider, event.SenderID()) && redactSpec(*a, event))
 //@   assigns nothing
+
+//@ func NewPowerLevelContentFromEvent
+//@   trusted
+//@   requires event != nil
+//@   ensures parses: (err == nil) <==> plParses(ref(event))
+//@   ensures content: err == nil ==> c == plContent(event)
+//@   assigns nothing
+
+//@ func (*PowerLevelContent).Defaults
+//@   property C07
+//@   requires c != nil
+//@   ensures defaults: c.Invite == 0 && c.Ban == 50 && c.Kick == 50 && c.Redact == 50 && c.UsersDefault == 0 && c.EventsDefault == 0 && c.StateDefault == 50 && NL(*c, "room") == 50
+//@   ensures others: c.Users == old(c.Users) && c.Events == old(c.Events)
+//@   assigns *c
+
+//@ func NewPowerLevelContentFromAuthEvents
+//@   property C07
+//@   requires authEvents != nil
+//@   ensures error: (err != nil) <==> (authEvents.PowerLevels()[1] != nil || (authEvents.PowerLevels()[0] != nil && !plParses(ref(authEvents.PowerLevels()[0]))))
+//@   ensures present: (err == nil && authEvents.PowerLevels()[0] != nil) ==> c == plContent(authEvents.PowerLevels()[0])
+//@   ensures absent-levels: (err == nil && authEvents.PowerLevels()[0] == nil) ==> (c.Invite == 0 && c.Ban == 50 && c.Kick == 50 && c.Redact == 50 && c.UsersDefault == 0 && c.EventsDefault == 0 && c.StateDefault == 50 && c.Events == nil)
+//@   ensures absent-users: (err == nil && authEvents.PowerLevels()[0] == nil) ==> (forall u string :: UL(c, u) == ((u == creatorUserID) ? 9007199254740991 : 0))
+//@   calls PowerLevels C09.footprint-power-levels: true
+
+//@ func NewJoinRuleContentFromAuthEvents
+//@   property C07
+//@   requires authEvents != nil
+//@   ensures error: (err != nil) <==> jrErr(authEvents)
+//@   ensures rule: err == nil ==> c.JoinRule == jrRule(authEvents)
+//@   assigns nothing
+
+//@ func NewCreateContentFromAuthEvents
+//@   property C07
+//@   requires authEvents != nil && userIDForSender != nil
+//@   ensures error: (err != nil) <==> createErr(authEvents, userIDForSender)
+//@   ensures content: err == nil ==> ccMatches(c, authEvents.Create()[0], userIDForSender)
+//@   assigns nothing
+
+//@ func CreatorsFromCreateEvent
+//@   property C07
+//@   requires createEvent != nil && createParses(createEvent)
+//@   ensures creators: creatorsMatch(creators, createEvent)
+//@   assigns nothing
+
+//@ func (*allowerContext).update
+//@   property C09
+//@   requires a != nil && provider != nil && a.userIDQuerier != nil && ctxWF(*a)
+//@   requires !createErr(provider, a.userIDQuerier) ==> verKnown(string(provider.Create()[0].Version()))
+//@   ensures provider: a.provider == provider && a.userIDQuerier == old(a.userIDQuerier) && a.roomID == old(a.roomID)
+//@   ensures wf: ctxWF(*a)
+//@   ensures create-present: !createErr(provider, a.userIDQuerier) ==> a.createEvent == provider.Create()[0]
+//@   ensures create-absent: createErr(provider, a.userIDQuerier) ==> (a.createEvent == nil && a.create == zero(CreateContent) && a.creators == nil && !a.privilegedCreators)
+//@   ensures pl-present: !plErr(provider) ==> (a.powerLevelsEvent == provider.PowerLevels()[0] && (provider.PowerLevels()[0] == nil ==> plDefaults(a.powerLevels, (a.createEvent == nil) ? "" : string(a.createEvent.SenderID()))))
+//@   ensures pl-absent: plErr(provider) ==> (a.powerLevelsEvent == nil && a.powerLevels == zero(PowerLevelContent))
+//@   ensures jr-present: !jrErr(provider) ==> (a.joinRuleEvent == provider.JoinRules()[0] && a.joinRule.JoinRule == jrRule(provider))
+//@   ensures jr-absent: jrErr(provider) ==> (a.joinRuleEvent == nil && a.joinRule == zero(JoinRuleContent))
+//@   assigns a.provider, a.createEvent, a.powerLevelsEvent, a.joinRuleEvent, a.create, a.creators, a.privilegedCreators, a.powerLevels, a.joinRule
